@@ -528,7 +528,12 @@ def child_history(desc: dict) -> dict:
                 ev["skip"] = True
                 return ev
             try:
-                objs[op["id"]] = copy.copy(objs[op["src"]]) if op.get("shallow") else copy.deepcopy(objs[op["src"]])
+                if op.get("pickle"):
+                    import pickle
+
+                    objs[op["id"]] = pickle.loads(pickle.dumps(objs[op["src"]], op["pickle"]))
+                else:
+                    objs[op["id"]] = copy.copy(objs[op["src"]]) if op.get("shallow") else copy.deepcopy(objs[op["src"]])
                 # no assumption about what a copy carries over: the model of the new object is
                 # what the object itself reports right after the copy
                 rb = _read_obj(objs[op["id"]])
@@ -919,7 +924,10 @@ def gen_history(seed: int, ctx: C10Ctx, knobs: dict | None = None) -> dict:
                 src_o = rng.choice(live)
                 live.append(nid)
                 models[nid] = dict(models[src_o])
-                ops.append({"op": "copy", "id": nid, "src": src_o, "shallow": rng.random() < 0.5})
+                cop = {"op": "copy", "id": nid, "src": src_o, "shallow": rng.random() < 0.5}
+                if rng.random() < 0.25:
+                    cop["pickle"] = rng.choice([2, 5])   # a copy made by a pickle round trip
+                ops.append(cop)
             else:
                 ops.append({"op": "delattr", "obj": rng.choice(live), "name": rng.choice(OPTION_NAMES)})
             continue
